@@ -53,7 +53,20 @@ func serves(c *Contract, prop string) bool {
 			return true
 		}
 	}
-	return false
+	// a clause that names the property itself ([Cxx] tag) brings its function into that
+	// property's check even when the function as a whole does not serve it: only the
+	// tagged clauses (and the vacuity covers) are then reported there (filterProps)
+	tagged := func(cls []Clause) bool {
+		for _, cl := range cls {
+			for _, p := range cl.Serves {
+				if p == prop {
+					return true
+				}
+			}
+		}
+		return false
+	}
+	return tagged(c.Ensures)
 }
 
 func main() {
